@@ -204,6 +204,38 @@ fn inplace_body<const N: usize, const M: usize>(lossy: bool) {
     kani::cover!(matches!(&r, Ok(c) if *c == 3) && doc[0] == b'\\' && doc[1] == b'u');
 }
 
+/// C09/C02 U-inplace-verdict: the same decoder on `w0 w1 n " x` + zero padding with only w0, w1
+/// symbolic and `\u` excluded: accept/reject and the decoded length equal the reference decoder's
+/// (a raw control character before the first escape must be rejected even when an escape follows
+/// in the same block).
+#[kani::proof]
+#[kani::unwind(5)]
+#[kani::stub(core::arch::x86_64::_mm_max_epu8, crate::verif_kmodels::mm_max_epu8)]
+fn u_parse_string_inplace_verdict_n2() {
+    let doc: [u8; 2] = kani::any();
+    kani::assume(doc[1] != b'u' && doc[0] != b'u');
+    let mut buf = [0u8; 70];
+    buf[0] = doc[0];
+    buf[1] = doc[1];
+    buf[2] = b'n';
+    buf[3] = b'"';
+    buf[4] = b'x';
+    let orig = buf;
+    let mut out = [0u8; 16];
+    let expect = ref_decode_string(&orig, 5, 0, false, &mut out);
+    let base = buf.as_mut_ptr();
+    let mut src = base;
+    let r = unsafe { parse_string_inplace(&mut src, false) };
+    match (&r, expect) {
+        (Ok(cnt), Some((_end, len))) => assert_eq!(*cnt, len),
+        (Err(_), None) => {}
+        _ => panic!("parse_string_inplace: accept/reject differs from the reference decoder"),
+    }
+    kani::cover!(r.is_ok() && doc[1] == b'\\');
+    kani::cover!(r.is_err() && doc[0] < 0x20 && doc[1] == b'\\');
+    kani::cover!(r.is_ok() && doc[0] == b'"');
+}
+
 #[kani::proof]
 #[kani::unwind(5)]
 #[kani::stub(core::arch::x86_64::_mm_max_epu8, crate::verif_kmodels::mm_max_epu8)]
